@@ -24,7 +24,7 @@ import (
 )
 
 type c16Scn struct {
-	Kind       string `json:"kind"` // reconnect | takeover | stale-delete-event | admin-delete
+	Kind       string `json:"kind"` // reconnect | takeover | stale-delete-event | admin-delete | broker-closed-predecessor | chain
 	OldClean   bool   `json:"old_clean_session"`
 	NewClean   bool   `json:"new_clean_session"`
 	End        string `json:"old_connection_ends_by"` // disconnect | drop | keepalive
@@ -118,6 +118,19 @@ func c16scenarios() []c16Scn {
 			out = append(out, c16Scn{Kind: "stale-delete-event", OldClean: true, NewClean: nc, End: end, Point: 0})
 		}
 	}
+	// The old connection is ended BY THE BROKER (admin delete of its session: closed and
+	// deregistered) while its socket stays open, so its read loop lingers and the next CONNECT of
+	// the id finds no registered connection; the old socket ends only at a later step of the new
+	// connection.  (new filter = old filter or not: drawn per case)
+	for _, oc := range bools {
+		for _, nc := range bools {
+			for _, end := range []string{"disconnect", "drop"} {
+				for pt := 1; pt <= 3; pt++ {
+					out = append(out, c16Scn{Kind: "broker-closed-predecessor", OldClean: oc, NewClean: nc, End: end, Point: pt})
+				}
+			}
+		}
+	}
 	return out
 }
 
@@ -205,8 +218,8 @@ func TestVerif_C16_Sessions(t *testing.T) {
 	scns := c16scenarios()
 	nPair := len(scns)
 	scns = append(scns, c16chains()...)
-	r.Rule(fmt.Sprintf("%d scripted schedules for one client id. (a) %d two-connection schedules: {cleanSession old} x {cleanSession new} x {new filter = old filter or not} x {plain reconnect after DISCONNECT / after a silent drop; takeover with the old connection's end (FIN through the relay, or DISCONNECT packet) placed after the new CONNACK / after the new SUBSCRIBE / after the first delivery / never; takeover with the old connection ended by the broker's keep-alive deadline; admin delete; session-delete watch event delayed past the reconnect}, a random QoS for the probe on the old filter; after the old teardown has completed a fresh message per filter is published. (b) %d longer session histories (chains): every sequence of three connections {cleanSession}^3 x {ends by DISCONNECT, ends by silent drop, is taken over while open}^2, each connection subscribing a filter of its own; the end of a superseded connection is placed at a drawn point (after the successor's CONNACK / SUBSCRIBE / first judgement / never), and for a taken-over first connection additionally, enumerated, only after the successor's own end (before the next CONNECT) and after the successor's end plus the next connection's SUBSCRIBE; after such a late teardown the stored session of the latest cleanSession=false connection must still hold its subscriptions; in the repeats a fourth connection with drawn parameters is inserted at a drawn position in half of the cases; EVERY connection of a chain is judged (books + one fresh message per filter of the history, PINGRESP barrier) against a model of the property sentence: cleanSession=true discards everything earlier, cleanSession=false keeps what the previous session held and what the connection subscribed itself, filters held by a cleanSession=true predecessor of a cleanSession=false connection are left open. All repeated (quick 3x, thorough 200x) with seeded jitter between the steps; distinct = (schedule, symptoms)", len(scns), nPair, len(scns)-nPair))
-	r.Assume("one client id, keepalive 0 except in the keep-alive schedules, no will; delete-watch events are delivered promptly (right after the teardown that caused them, before the next step) except in the stale-delete-event schedules; old cleanSession=true followed by new cleanSession=false: whether the old subscription comes back is left open (counted, not judged); new cleanSession=true while the superseded connection has not been torn down yet: delivery on the old filter is counted, not judged; chains: a connection ends only after every Session.store() hand-over has finished, a superseded connection whose teardown point is 'never' is torn down only after the history has been judged; a discarded filter must stay silent only once every earlier connection has been torn down")
+	r.Rule(fmt.Sprintf("%d scripted schedules for one client id. (a) %d two-connection schedules: {cleanSession old} x {cleanSession new} x {new filter = old filter or not} x {plain reconnect after DISCONNECT / after a silent drop; takeover with the old connection's end (FIN through the relay, or DISCONNECT packet) placed after the new CONNACK / after the new SUBSCRIBE / after the first delivery / never; takeover with the old connection ended by the broker's keep-alive deadline; admin delete; session-delete watch event delayed past the reconnect; predecessor ended BY THE BROKER: its session is deleted through the admin endpoint (delete event delivered and processed, connection closed and deregistered, socket still open so that its read loop lingers), then the new CONNECT (not a takeover for the broker) and the old socket's end (FIN or DISCONNECT packet) placed after the new CONNACK / SUBSCRIBE / first delivery}, a random QoS for the probe on the old filter; after the old teardown has completed a fresh message per filter is published. (b) %d longer session histories (chains): every sequence of three connections {cleanSession}^3 x {ends by DISCONNECT, ends by silent drop, is taken over while open}^2, each connection subscribing a filter of its own; the end of a superseded connection is placed at a drawn point (after the successor's CONNACK / SUBSCRIBE / first judgement / never), and for a taken-over first connection additionally, enumerated, only after the successor's own end (before the next CONNECT) and after the successor's end plus the next connection's SUBSCRIBE; after such a late teardown the stored session of the latest cleanSession=false connection must still hold its subscriptions; in the repeats a fourth connection with drawn parameters is inserted at a drawn position in half of the cases; EVERY connection of a chain is judged (books + one fresh message per filter of the history, PINGRESP barrier) against a model of the property sentence: cleanSession=true discards everything earlier, cleanSession=false keeps what the previous session held and what the connection subscribed itself, filters held by a cleanSession=true predecessor of a cleanSession=false connection are left open. All repeated (quick 3x, thorough 200x) with seeded jitter between the steps; distinct = (schedule, symptoms)", len(scns), nPair, len(scns)-nPair))
+	r.Assume("one client id, keepalive 0 except in the keep-alive schedules, no will; delete-watch events are delivered promptly (right after the teardown that caused them, before the next step) except in the stale-delete-event schedules; old cleanSession=true followed by new cleanSession=false: whether the old subscription comes back is left open (counted, not judged); new cleanSession=true while the superseded connection has not been torn down yet: delivery on the old filter is counted, not judged; predecessor ended by an admin delete: whether a cleanSession=false successor gets the deleted session's filter is left open (counted), the broker's other own closes are not generated (the keep-alive deadline ends the read loop itself so nothing lingers; a failed socket write and the watcher re-sync leave the connection registered, which is the takeover schedule); chains: a connection ends only after every Session.store() hand-over has finished, a superseded connection whose teardown point is 'never' is torn down only after the history has been judged; a discarded filter must stay silent only once every earlier connection has been torn down")
 	reps := r.N(3, 200)
 	n := len(scns) * reps
 	for i := 0; i < n; i++ {
@@ -223,6 +236,9 @@ func TestVerif_C16_Sessions(t *testing.T) {
 			continue
 		}
 		s.M1QoS = rng.Intn(2)
+		if s.Kind == "broker-closed-predecessor" {
+			s.SameFilter = rng.Intn(2) == 0
+		}
 		if s.Kind == "takeover" || s.Kind == "reconnect" {
 			s.Admin = rng.Intn(4) == 0
 		}
@@ -237,6 +253,10 @@ func TestVerif_C16_Sessions(t *testing.T) {
 	r.Require("clean_session_old_filter_silent", 1)
 	r.Require("admin_delete_disconnected_client", 1)
 	r.Require("keepalive_teardown_observed", 1)
+	// predecessor ended by the broker (admin delete), lingering read loop, old socket ends after the new connection's steps
+	r.Require("broker_closed_predecessor_deregistered_and_lingering", 1)
+	r.Require("broker_closed_predecessor_survivor_judged_after_old_teardown", 1)
+	r.Require("broker_closed_predecessor_survivor_delivery_and_qos1_redelivery_seen_after_old_teardown", 1)
 	// chains: the monitor must have judged reconnects deep in a history, for every kind of clause
 	r.Require("chain_connections_judged", 1)
 	r.Require("chain_third_or_later_connection_judged", 1)
@@ -443,6 +463,35 @@ func c16run(r *kit.Run, rng *rand.Rand, s c16Scn, first bool) {
 			return
 		}
 	}
+	if s.Kind == "broker-closed-predecessor" {
+		// the broker ends the old connection itself: admin delete of the session, the delete event
+		// is delivered and completely processed BEFORE the new connection is started (otherwise
+		// this would be the stale-delete-event schedule)
+		jit()
+		if code := rb.httpDeleteSession(cid); code != 200 {
+			bad(fmt.Sprintf("admin-delete-rejected-%d", code), nil)
+			return
+		}
+		if _, ok := rb.flushDeletes(); !ok {
+			inc("watchdog: delete-watch flush")
+			return
+		}
+		step("admin: DELETE session %s, watch event delivered and processed (before the new CONNECT)", cid)
+		if reg, _ := rb.registered(cid); reg != nil {
+			bad("admin-delete:client-still-registered", nil)
+			return
+		}
+		select {
+		case <-la.upClosed:
+			// the broker has closed the socket itself: nothing lingers, this class is not established
+			r.Count("broker_closed_predecessor:socket_closed_by_broker_at_once(case skipped)", 1)
+			oldDown = true
+			return
+		default:
+		}
+		r.Count("broker_closed_predecessor_deregistered_and_lingering", 1)
+		step("old: closed and deregistered by the broker, its socket is still open and its read loop lingers")
+	}
 	endOld := func() bool {
 		jit()
 		switch s.End {
@@ -558,7 +607,10 @@ func c16run(r *kit.Run, rng *rand.Rand, s c16Scn, first bool) {
 	}
 
 	// ---- judgement: the surviving connection and the broker's books
-	expectPrev := !s.OldClean && !s.NewClean
+	expectPrev := !s.OldClean && !s.NewClean && s.Kind != "broker-closed-predecessor" // after an admin delete of the session the property does not say
+	if s.Kind == "broker-closed-predecessor" && oldDown {
+		r.Count("broker_closed_predecessor_survivor_judged_after_old_teardown", 1)
+	}
 	reg, sess := rb.registered(cid)
 	switch {
 	case reg == nil:
@@ -639,6 +691,9 @@ func c16run(r *kit.Run, rng *rand.Rand, s c16Scn, first bool) {
 				bad("qos1-redelivery-stopped", map[string]interface{}{"payload": pl, "copies": n, "harness_ticks": c15rigMaxTicks})
 			default:
 				r.Count("survivor_qos1_redelivery_seen", 1)
+				if s.Kind == "broker-closed-predecessor" && oldDown {
+					r.Count("broker_closed_predecessor_survivor_delivery_and_qos1_redelivery_seen_after_old_teardown", 1)
+				}
 			}
 			_, ids := b.copies(pl)
 			if len(ids) > 0 {
@@ -669,6 +724,10 @@ func c16run(r *kit.Run, rng *rand.Rand, s c16Scn, first bool) {
 			r.Count("clean_session_got_old_filter_while_superseded_connection_not_torn_down(not judged)", 1)
 		case s.NewClean:
 			r.Count("clean_session_old_filter_silent", 1)
+		case s.Kind == "broker-closed-predecessor" && got:
+			r.Count("broker_closed_predecessor:persistent_successor_got_old_filter_of_admin_deleted_session(not judged)", 1)
+		case s.Kind == "broker-closed-predecessor":
+			r.Count("broker_closed_predecessor:persistent_successor_old_filter_silent(not judged)", 1)
 		case got:
 			r.Count("old_clean_new_persistent:old_filter_delivered(not judged)", 1)
 		default:
